@@ -603,3 +603,89 @@ func runC08(c *fw.Ctx) {
 		}
 	})
 }
+
+// drainDirect: send-all from an in-order list of DISTINCT accounts (plain or with a bounded
+// overdraft, no caps) — checked without the reference semantics: after the statement every
+// listed plain account holds min(start, 0) and every bounded-overdraft account
+// start − max(0, start + bound), and nothing else was debited.
+func drainDirect(c *fw.Ctx) {
+	n := c.N(15000, 600000)
+	names := []string{"a", "b", "c", "d", "e"}
+	for i := 0; i < n; i++ {
+		id := "drain/" + itoa(i)
+		if !c.Want(40_000_000+i, id) {
+			continue
+		}
+		r := c.Rng(id)
+		k := r.Range(1, 5)
+		perm := append([]string(nil), names...)
+		r.Shuffle(len(perm), func(x, y int) { perm[x], perm[y] = perm[y], perm[x] })
+		var srcs []gen.Source
+		bal := map[string]string{}
+		want := map[string]*big.Int{}
+		for j := 0; j < k; j++ {
+			a := perm[j]
+			start := gen.Balance(r, 15, 30)
+			if r.Chance(5, 6) {
+				bal[a+"/USD"] = start.String()
+			} else {
+				start = new(big.Int)
+			}
+			od := new(big.Int)
+			if r.Chance(1, 2) {
+				od = gen.SmallOrBig(r, 10)
+				if r.Chance(1, 8) {
+					od.Neg(od)
+				}
+				srcs = append(srcs, &gen.SrcOverdraft{Addr: gen.A(a), Bounded: gen.M("USD", od.String())})
+			} else {
+				srcs = append(srcs, gen.SA(a))
+			}
+			give := new(big.Int).Add(start, od)
+			if give.Sign() < 0 {
+				give.SetInt64(0)
+			}
+			want[a] = new(big.Int).Sub(start, give)
+		}
+		var src gen.Source = &gen.SrcInorder{Srcs: srcs}
+		if k == 1 && r.Bool() {
+			src = srcs[0]
+		}
+		sc := &gen.Script{Stmts: []gen.Stmt{&gen.Send{Sent: &gen.SentValue{All: true, E: gen.As("USD")}, Src: src, Dst: gen.DA("z")}}}
+		cs := mkCase(sc, nil, bal)
+		e, ok := run(c, cs)
+		if !ok {
+			continue
+		}
+		c.Count("drain_direct_cases", 1)
+		if !e.out.OK() {
+			c.Violation("drain-failed", fmt.Sprintf("send-all from bounded sources failed: %s (%v)", e.out.Summary(), e.out.Err), e.input())
+			return
+		}
+		final := map[string]*big.Int{}
+		for a := range want {
+			final[a] = new(big.Int)
+			if b, ok := cs.Balances[a]["USD"]; ok {
+				final[a].Set(b)
+			}
+		}
+		for _, p := range e.out.Postings {
+			if _, listed := final[p.Src]; !listed {
+				c.Violation("drain-foreign-debit", fmt.Sprintf("posting %s debits an account that is not a listed source", p), e.input())
+				return
+			}
+			final[p.Src].Sub(final[p.Src], p.Amt)
+			if p.Dst != "z" {
+				c.Violation("drain-wrong-credit", fmt.Sprintf("posting %s credits %s", p, p.Dst), e.input())
+				return
+			}
+		}
+		for a, w := range want {
+			if final[a].Cmp(w) != 0 {
+				c.Violation("drain-level", fmt.Sprintf("after send-all, @%s holds %s; expected exactly %s (start %v)", a, final[a], w, bal[a+"/USD"]), e.input())
+				return
+			}
+		}
+		c.Distinct(fmt.Sprintf("drain|%d|%s", k, gen.ShapeKey(sc)))
+	}
+}
